@@ -62,9 +62,34 @@ class SlowRebuild:
         return (_rebuild, (self.flag, self.pid, REBUILD_S))
 
 
+class TaskFailed(Exception):
+    """The classic exception class that pickle cannot rebuild (it calls TaskFailed(msg))."""
+
+    def __init__(self, task, reason):
+        super().__init__('task %s failed: %s' % (task, reason))
+        self.task, self.reason = task, reason
+
+
+def _linger(flag):
+    """Leaves a non-daemon thread behind: the process does not exit when the worker's loop has ended
+    (bounded: the thread ends when `flag` appears, or after 20 s)."""
+    import threading
+
+    def stay():
+        t0 = time.time()
+        while not os.path.exists(flag) and time.time() - t0 < 20:
+            time.sleep(0.01)
+    threading.Thread(target=stay, name='left-behind', daemon=False).start()
+    return 'lingering'
+
+
 def echo(*args, **kwargs):
     """Returns what it was called with, so the merge of defaults and enqueued arguments is observed directly."""
     if args and isinstance(args[0], str):
+        if args[0] == '@bad':
+            raise TaskFailed('t1', 'bad input')
+        if args[0] == '@linger':
+            return _linger(args[1])
         if args[0] == '@busy':
             return _busy(args[1])
         if args[0] == '@slowres':
